@@ -16,7 +16,7 @@ import (
 func Run(r *core.Run) {
 	nKeys := core.Pick(r, 64, 1024)
 	r.Rule = fmt.Sprintf("keys: %d per type x 5 types x 5 nonce variants x {sha2-256, sha2-512}: reveal/commitment/derivation identities against the reference, all commitments pairwise distinct; "+
-		"chains: every sequence create (update|recover)^<=3 deactivate x 3 key-type assignments + mixed x 2 algorithms, and every non-constant assignment of the two algorithms to the operations of a chain (algorithm migration), keys with and without a nonce along one chain (none, all, alternating), linkage of every edge through the parser; "+
+		"chains: every sequence create (update|recover)^<=3 deactivate x 3 key-type assignments + mixed x 2 algorithms, and every non-constant assignment of the two algorithms to the operations of a chain (algorithm migration), keys with and without a nonce along one chain (none, all, alternating, and one key per chain re-used under changing nonces), linkage of every edge through the parser; "+
 		"distinct = distinct (key, nonce, algorithm) commitments and distinct chain edges; non-trivial = all", nKeys)
 	r.Assumptions = []string{"reference: reveal = mh(code, JCS(jwk)), commitment = mh(code, H(JCS(jwk))) with the JWK model {kty, crv, x, y[, nonce]}", "chains are built by the harness generator with fresh keys per step"}
 	nonces := []string{"", "AAAAAAAAAAAAAAAAAAAAAA", "_____________________w", "AQIDBAUGBwgJCgsMDQ4PEA", "AAAAAAAAAAAAAAAAAAAAAQ"}
@@ -126,7 +126,7 @@ func Run(r *core.Run) {
 				jobs = append(jobs, job{s, ta, code, 0, nil, 0}, job{s, ta, code, 1, nil, 0})
 				if ti == 0 || ti == 3 {
 					// keys with and without a nonce along one chain, parsed by one parser
-					for np := 1; np <= 3; np++ {
+					for np := 1; np <= 4; np++ {
 						jobs = append(jobs, job{s, ta, code, np % 2, nil, np})
 					}
 				}
@@ -178,7 +178,25 @@ func Run(r *core.Run) {
 			n++
 			return k
 		}
-		upd, rec := fresh(), fresh()
+		// nonce pattern 4: one public key per chain (update chain, recovery chain) used again and again, told apart by the nonce only:
+		// with nonce A, bare, with nonce B, with nonce A ... - JWKs that differ in the nonce alone have different commitments
+		roleCount := map[byte]int{}
+		freshFor := func(role byte) *keys.Key {
+			if j.nonces != 4 {
+				return fresh()
+			}
+			k := keys.New(j.types[0], 150+int(role))
+			c := roleCount[role]
+			roleCount[role]++
+			switch c % 3 {
+			case 0:
+				return k.WithNonce("AQIDBAUGBwgJCgsMDQ4PEA")
+			case 2:
+				return k.WithNonce("EA8ODQwLCgkIBwYFBAMCAQ")
+			}
+			return k
+		}
+		upd, rec := freshFor('u'), freshFor('r')
 		var win ops.Window
 		var origin any
 		if j.flavour == 1 {
@@ -208,7 +226,7 @@ func Run(r *core.Run) {
 			}
 			switch st {
 			case 'u':
-				nk := fresh()
+				nk := freshFor('u')
 				d := ops.Delta(ops.Commitment(nk, nc), patch)
 				req = ops.Request("update", suffix, ops.Reveal(upd, updCode), ops.Sign(upd, ops.UpdatePayload(upd, ops.HashOf(d, nc), win)), d)
 				wantPrev = updC
@@ -216,7 +234,7 @@ func Run(r *core.Run) {
 				nextUpdC = ops.Commitment(nk, nc)
 				wantNext = nextUpdC
 			case 'r':
-				nr, nu := fresh(), fresh()
+				nr, nu := freshFor('r'), freshFor('u')
 				d := ops.Delta(ops.Commitment(nu, nc), patch)
 				req = ops.Request("recover", suffix, ops.Reveal(rec, recCode), ops.Sign(rec, ops.RecoverPayload(rec, ops.HashOf(d, nc), ops.Commitment(nr, nc), origin, win)), d)
 				wantPrev = recC
